@@ -51,10 +51,26 @@ thread_local! {
     static POST: std::cell::Cell<u64> = std::cell::Cell::new(0);
 }
 
-#[derive(Debug, Clone, Copy, Hash, PartialEq, Eq, PartialOrd, Ord)]
+// same-side comparisons (old == old, new == new: what a hash table of items does) are counted too
+thread_local! {
+    pub static SCMPS: std::cell::Cell<u64> = std::cell::Cell::new(0);
+}
+#[derive(Debug, Clone, Copy, Hash, Eq, PartialOrd, Ord)]
 pub struct OldItem(pub u64);
-#[derive(Debug, Clone, Copy, Hash, PartialEq, Eq, PartialOrd, Ord)]
+#[derive(Debug, Clone, Copy, Hash, Eq, PartialOrd, Ord)]
 pub struct NewItem(pub u64);
+impl PartialEq for OldItem {
+    fn eq(&self, other: &OldItem) -> bool {
+        SCMPS.with(|c| c.set(c.get() + 1));
+        self.0 == other.0
+    }
+}
+impl PartialEq for NewItem {
+    fn eq(&self, other: &NewItem) -> bool {
+        SCMPS.with(|c| c.set(c.get() + 1));
+        self.0 == other.0
+    }
+}
 
 impl PartialEq<OldItem> for NewItem {
     fn eq(&self, other: &OldItem) -> bool {
@@ -455,6 +471,7 @@ fn case_raw(kv: &Kv) -> String {
     }
     CMPS.with(|c| c.set(0));
     POST.with(|c| c.set(0));
+    SCMPS.with(|c| c.set(0));
     let deadline = install_clock(dl);
     let (log, r) = match s.off {
         None => {
@@ -482,7 +499,11 @@ fn case_raw(kv: &Kv) -> String {
     let cmps = CMPS.with(|c| c.get());
     let post = POST.with(|c| c.get());
     let counters = if fail.is_none() && stack == "none" {
-        format!("probes={} cmps={} post={}", probes, cmps, post)
+        // comparisons among the items of one side (hash table look-ups): each occurrence of an item costs about one,
+        // plus rare tag collisions; far more means the table degenerated
+        let sc = SCMPS.with(|c| c.get());
+        let side_ok = sc <= 2 * ((oe - os) as u64 + (ne - ns) as u64) + 64;
+        format!("probes={} cmps={} post={} ss={}", probes, cmps, post, if side_ok { 1 } else { 0 })
     } else if fail.is_none() {
         format!("probes={} cmps=-", probes)
     } else {
@@ -752,7 +773,39 @@ fn case_iter(kv: &Kv) -> String {
             )
         })
         .collect();
-    let all_same = all == ch;
+    let mut all_same = all == ch;
+    // a diff of SLICES whose tokens may be empty (the value 0 becomes ""), remapped onto the joined texts
+    {
+        let ot: Vec<String> = old.iter().map(|x| if *x % 7 == 0 { String::new() } else { x.to_string() }).collect();
+        let nt: Vec<String> = new.iter().map(|x| if *x % 7 == 0 { String::new() } else { x.to_string() }).collect();
+        let otr: Vec<&str> = ot.iter().map(|x| x.as_str()).collect();
+        let ntr: Vec<&str> = nt.iter().map(|x| x.as_str()).collect();
+        let (oj, nj) = (ot.concat(), nt.concat());
+        let tds = similar::TextDiff::from_slices(&otr, &ntr);
+        let rm = similar::utils::TextDiffRemapper::from_text_diff(&tds, &oj[..], &nj[..]);
+        let mut ro = String::new();
+        let mut rn = String::new();
+        for op in tds.ops() {
+            for (tag, sl) in rm.iter_slices(op) {
+                let want: String = match tag {
+                    similar::ChangeTag::Insert => ntr[op.new_range()].concat(),
+                    _ => otr[op.old_range()].concat(),
+                };
+                if sl != want {
+                    all_same = false;
+                }
+                if tag != similar::ChangeTag::Insert {
+                    ro.push_str(sl);
+                }
+                if tag != similar::ChangeTag::Delete {
+                    rn.push_str(sl);
+                }
+            }
+        }
+        if ro != oj || rn != nj {
+            all_same = false;
+        }
+    }
     let j = |v: Vec<String>| {
         if v.is_empty() {
             "-".to_string()
